@@ -21,55 +21,107 @@ def gen_async():
         lean_t = "some (%d)" % int(t)
     else:
         raise Inexpressible("DEFAULT_CONFIG['sync_request_timeout'] is neither None nor a whole number of seconds: %r" % (t,))
-    all_run = measure_callbacks_all_run(async_)
+    all_run, propagates = measure_callback_loop(async_)
+    atomic = measure_registration_atomic(async_)
     L = ["namespace Rpyc.Gen.Async", "",
-         "/-- `AsyncResult.__slots__` -/",
-         "def slots : List String := " + lean_list([lean_str(s) for s in slots], 8), "",
+         "/-- `AsyncResult.__slots__`, sorted (the order of the slots carries no meaning) -/",
+         "def slots : List String := " + lean_list([lean_str(s) for s in sorted(slots)], 8), "",
          "/-- `DEFAULT_CONFIG[\"sync_request_timeout\"]` (seconds; `none` = no timeout) -/",
          "def syncRequestTimeout : Option Int := " + lean_t, "",
-         "/-- measured on the live `AsyncResult.__call__` with the callbacks [raises, returns]: does the second callback",
-         "still run, is the list cleared, and is the first error re-raised afterwards (`true`) - or does the loop stop at",
-         "the raising callback with the list left as it is (`false`)? -/",
+         "/-- measured on the live `AsyncResult.__call__` with the callbacks [raises, returns], once for each of",
+         "RuntimeError, KeyError and a user-defined Exception subclass: does the second callback still run and is the",
+         "list cleared - for every one of them (`true`)?  `false`: for at least one class the loop stops at the raising",
+         "callback -/",
          "def callbacksAllRun : Bool := " + ("true" if all_run else "false"), "",
+         "/-- measured in the same runs: is a callback's error re-raised out of `__call__` into whoever is serving (`true`)",
+         "or kept from it (logged / swallowed, `false`)?  No obligation rests on this: the statement is silent on it -/",
+         "def callbackErrorPropagates : Bool := " + ("true" if propagates else "false"), "",
+         "/-- measured: `add_callback` is paused between its test of `_is_ready` and its append while a second thread",
+         "delivers the reply.  `true`: the registration and the publication exclude each other (the callback runs exactly",
+         "once); `false`: the callback is appended to a list that was already taken - it never runs -/",
+         "def addCallbackAtomic : Bool := " + ("true" if atomic else "false"), "",
          "end Rpyc.Gen.Async", ""]
     return "\n".join(L)
 
 
-def measure_callbacks_all_run(async_):
-    """run the real `__call__` once on a bare result with a raising callback followed by a plain one"""
-    res = async_.AsyncResult(None)
-    ran = []
+class ProbeError(Exception):
+    """a user-defined exception class"""
 
-    def failing(r):
-        ran.append(1)
-        raise RuntimeError("measured")
 
-    def plain(r):
-        ran.append(2)
-    res.add_callback(failing)
-    res.add_callback(plain)
+def _bounded(fn, what):
+    import threading
     box = {}
 
     def body():
         try:
-            res(False, 0)
-            box["raised"] = False
-        except RuntimeError:
-            box["raised"] = True
-    import threading
-    th = threading.Thread(target=body, daemon=True)      # (a __call__ that never comes back must not hang every check)
+            box["ok"] = fn()
+        except BaseException as ex:  # noqa
+            box["raised"] = ex
+    th = threading.Thread(target=body, daemon=True)      # (a call that never comes back must not hang every check)
     th.start()
     th.join(10)
     if th.is_alive():
-        raise Inexpressible("AsyncResult.__call__ with a raising callback does not return")
-    raised = box.get("raised")
-    obs = (ran, len(res._callbacks), raised, bool(res._is_ready))
-    if obs == ([1, 2], 0, True, True):
+        raise Inexpressible("%s does not return" % what)
+    return box
+
+
+def measure_callback_loop(async_):
+    """run the real `__call__` on a bare result with a raising callback followed by a plain one, for several classes"""
+    all_run, props = [], []
+    for cls in (RuntimeError, KeyError, ProbeError):
+        res = async_.AsyncResult(None)
+        ran = []
+
+        def failing(r, cls=cls, ran=ran):
+            ran.append(1)
+            raise cls("measured")
+
+        def plain(r, ran=ran):
+            ran.append(2)
+        res.add_callback(failing)
+        res.add_callback(plain)
+        box = _bounded(lambda: res(False, 0), "AsyncResult.__call__ with a raising callback")
+        if "raised" in box and not isinstance(box["raised"], cls):
+            raise Inexpressible("AsyncResult.__call__ raised %r for a callback raising %s" % (box["raised"], cls.__name__))
+        if not res._is_ready or ran[:1] != [1]:
+            raise Inexpressible("AsyncResult.__call__ with a raising callback: ready %r, ran %r" % (res._is_ready, ran))
+        all_run.append(ran == [1, 2] and len(res._callbacks) == 0)
+        props.append("raised" in box)
+    if len(set(props)) != 1:
+        raise Inexpressible("whether a callback's error leaves __call__ depends on its class: %r" % (props,))
+    return all(all_run), props[0]
+
+
+def measure_registration_atomic(async_):
+    """`add_callback` paused between test and append (the callback list is a list subclass whose append first lets a
+    second thread deliver the reply); was the callback run exactly once, or lost?"""
+    import threading
+    res = async_.AsyncResult(None)
+    ran = []
+    publisher = threading.Thread(target=lambda: res(False, 7), daemon=True)
+
+    class PausingList(list):
+        hook = True
+
+        def append(self, item):
+            if self.hook:
+                self.hook = False
+                publisher.start()
+                publisher.join(0.3)
+            list.append(self, item)
+    try:
+        res._callbacks = PausingList()
+    except AttributeError as ex:
+        raise Inexpressible("AsyncResult._callbacks cannot be replaced for the measurement: %r" % (ex,))
+    _bounded(lambda: res.add_callback(lambda r: ran.append(1)), "AsyncResult.add_callback")
+    publisher.join(5)
+    if publisher.is_alive() or not res._is_ready:
+        raise Inexpressible("the reply delivered during add_callback was never published")
+    if ran == [1] and not res._callbacks:
         return True
-    if obs == ([1], 2, True, True):
+    if ran == [] and len(res._callbacks) == 1:
         return False
-    raise Inexpressible("AsyncResult.__call__ with a raising callback behaves in a way the model has no branch for: "
-                        "ran %r, %d callbacks left, raised %r, ready %r" % obs)
+    raise Inexpressible("add_callback racing with the publication: callback ran %r, %d stored" % (ran, len(res._callbacks)))
 
 
 SECTIONS = [("Async.lean", gen_async)]
